@@ -4720,8 +4720,10 @@ class TLSConnection(TLSRecordLayer):
                         cert.x509List[0].certAlg in ("Ed25519", "Ed448"):
                     raise TLSHandshakeFailure(
                         "EdDSA certificate can't be used before TLS 1.2")
-                # but if we have matching PSKs, prefer those
-                if settings.pskConfigs and client_psks:
+                # but if we have matching PSKs, prefer those (PSKs are used in
+                # TLS 1.3 only: in earlier versions their PRF must not narrow
+                # down the cipher suites)
+                if version > (3, 3) and settings.pskConfigs and client_psks:
                     client_identities = [
                         i.identity for i in client_psks.identities]
                     psks_prfs = [i[2] if len(i) == 3 else None for i in
